@@ -533,6 +533,9 @@ func (g *Gen) Actions(fail func(t *rapid.T, err error)) map[string]func(*rapid.T
 		}
 		return nil
 	})
+	if g.Cfg.RegrowAfterCut {
+		acts["runedge"] = do("RUNEDGE", g.RunEdge)
+	}
 	acts["remove2"] = acts["remove"]
 	acts["rename2"] = acts["rename"]
 	acts["setattr2"] = acts["setattr"]
@@ -548,4 +551,46 @@ func minU64(a, b uint64) uint64 {
 		return a
 	}
 	return b
+}
+
+// RunEdge (several requests in one action): data in the block in front of (or just behind) a boundary of the index
+// structure - the last direct block, the last block under the indirect block, the last block of a 512-block run under
+// the double-indirect root -, one or two whole index runs of hole above it, a cut to below the data but mostly still
+// inside the range of its index block, growth back over it, and reads of the blocks around it: zeros only.
+func (g *Gen) RunEdge(t *rapid.T) error {
+	x := g.X
+	files := g.unskipped(x.M.LiveKind(nt.NF3REG))
+	if len(files) == 0 || x.Budget < 60 {
+		return nil
+	}
+	f := pick(t, files, "file")
+	e := uint64(pick(t, []int{7, 8, 519, 520, 1031, 1032, 1543}, "edgeblock"))
+	in := uint64(pick(t, []int{0, 0, 100, 4000}, "in"))
+	n := uint32(pick(t, []int{1, 96, 4096, 5000}, "len"))
+	if err := x.Write(LiveRef(f), e*BlockSize+in, patternData(g.nextTag(), uint64(n)), n, pick(t, g.Cfg.Stable, "stable")); err != nil || !x.LastOK {
+		return err
+	}
+	hole := (e+1+uint64(pick(t, []int{1, 511, 512, 513, 1024}, "holeblocks")))*BlockSize + uint64(pick(t, []int{0, 0, 5}, "holein"))
+	if f.Size < hole {
+		if err := x.Setattr(LiveRef(f), &hole, false); err != nil || !x.LastOK {
+			return err
+		}
+	}
+	cut := uint64(pick(t, []int{1, 8, 9, int(e / 2), int(e) - 1, int(e)}, "cutblocks")) * BlockSize
+	switch rapid.IntRange(0, 2).Draw(t, "cutin") {
+	case 1:
+		cut -= 7
+	case 2:
+		cut += 100
+	}
+	if err := x.Setattr(LiveRef(f), &cut, false); err != nil || !x.LastOK {
+		return err
+	}
+	grow := (e+2)*BlockSize + uint64(pick(t, []int{0, 5}, "growin"))
+	if err := x.Setattr(LiveRef(f), &grow, false); err != nil || !x.LastOK {
+		return err
+	}
+	g.ShrinkThenGrow = true
+	St.Class("cut_below_data_at_an_index_run_edge_and_regrown")
+	return x.Read(LiveRef(f), (e-1)*BlockSize, 3*BlockSize)
 }
